@@ -21,7 +21,17 @@ def log(*a):
     print(*a, flush=True)
 
 
+_WD_LOCKS = []
+
+
 def workdir(prop):
+    """Fresh scratch directory .work/<prop>.  Two runs for the same property (quick and thorough started side
+    by side) would wipe each other's files: the second one waits until the first has finished."""
+    import fcntl
+    os.makedirs(os.path.join(VERIF, ".work"), exist_ok=True)
+    lk = open(os.path.join(VERIF, ".work", prop + ".lock"), "w")
+    fcntl.flock(lk, fcntl.LOCK_EX)
+    _WD_LOCKS.append(lk)       # held until the process exits
     d = os.path.join(VERIF, ".work", prop)
     shutil.rmtree(d, ignore_errors=True)
     os.makedirs(d)
